@@ -156,8 +156,8 @@ def run(ctx):
     tiny_q = [(3, 2, 2, 4, [1], ["go"], False, False, False, 300, 1, (1, 64)),
               (3, 1, 1, 3, [2], ["go"], False, False, False, 200, 1, (1, 64))]
     tiny_t = tiny_q + [(3, 1, 1, 3, [1], ["open"], True, False, False, 300, 1, (0, 1)),
-                       (3, 1, 1, 3, [1], ["rel"], False, False, True, 300, 2, (1, 16)),
-                       (3, 3, 3, 6, [1], ["go"], False, True, False, 300, 2, (1, 16))]
+                       (3, 3, 3, 6, [1], ["go"], False, False, False, 300, 2, (1, 16)),
+                       (3, 1, 1, 2, [1], ["rel"], False, True, True, 300, 1, (1, 64))]
     jobs, labels = [], []
     for c in ctx.pick(tiny_q, tiny_t):
         jobs.append(dict(module="SimWhole", cfg_text=sw_cfg(*c, invs=INV, halves=False), workers=4, timeout=3000))
